@@ -165,3 +165,34 @@ def selftest():
     _CLOCK.advance(6)
     assert (statemachine.datetime.now() - t0).total_seconds() == 6
     return True
+
+
+class GlobalsGuard:
+    """Process-global mutable containers of library modules (module attributes and attributes of the classes
+    defined there) are put back to their import-time content before every execution: state an execution leaves
+    in such a container is nondeterminism the explorer has to own (a fresh world must not see the previous one)."""
+
+    _TYPES = (dict, list, set, collections.deque)
+
+    def __init__(self, modules):
+        self.slots = []
+        for mod in modules:
+            owners = [mod] + [v for v in vars(mod).values() if isinstance(v, type) and getattr(v, "__module__", None) == mod.__name__]
+            for owner in owners:
+                for name, val in list(vars(owner).items()):
+                    if name.startswith("__") or not isinstance(val, self._TYPES):
+                        continue
+                    self.slots.append((owner, name, val, type(val)(val)))
+        self.restored = 0
+
+    def restore(self):
+        for owner, name, obj, snap in self.slots:
+            if len(obj) != len(snap) or (obj != snap if not isinstance(obj, collections.deque) else list(obj) != list(snap)):
+                self.restored += 1
+                obj.clear()
+                if isinstance(obj, dict):
+                    obj.update(snap)
+                elif isinstance(obj, set):
+                    obj |= snap
+                else:
+                    obj.extend(snap)
